@@ -1760,4 +1760,80 @@ def r20(F, R):
     R.floor(1)
 
 
-RULES = [("R20", r20, None), ("R19", r19, ["all", "libtest"]), ("R18", r18, ["all", "libtest"]), ("R17", r17, None), ("R16", r16, ["all", "libtest"]), ("R15", r15, ["all", "junit"]), ("R14", r14, None), ("R13", r13, None), ("R12", r12, None), ("R11", r11, None), ("R10", r10, ["all", "json"]), ("R9", r9, None), ("R8", r8, ["all", "junit"]), ("R7", r7, ["all", "json"]), ("R6", r6, ["all", "json"]), ("R5", r5, ["all", "junit"]), ("R1", r1, None), ("R2", r2, None), ("R3", r3, None), ("R4", r4, None)]
+def r21(F, R):
+    """Terminal writer: indentation is what places a line under its rule / scenario / step, and it is kept by a counter that every bracket
+    opens and closes by the same amount — on the scenario dispatcher's table (all of the writer's own methods inlined, everything that writes
+    no field pruned) the net change of `indent` is +k for a Started event and −k (or nothing, on an I/O error path) for each of its result
+    events: Step and Background Started against Passed / Skipped / Failed, Hook Started against Passed / Failed, Scenario Started against
+    Finished.  A result that takes off more than its Started put on moves the following scenarios of a rule out from under it."""
+    from . import deep as D
+    from .termtypes import Typer
+    BA = "writer::basic::Basic"
+    own = lambda cb: bool(cb.impl and cb.impl.get("self_adt") == BA and not cb.impl.get("trait"))
+    disp = [b for b in F.crate_bodies() if own(b) and any("event::RetryableScenario" in t for t in b.locals[1:b.arg_count + 1])]
+    if len(disp) != 1:
+        raise Unverifiable(f"Basic's scenario-event dispatcher: {len(disp)}")
+    disp = disp[0]
+    dp = D.Deep(F, disp, inline_only=own, opaque=r"WriteStrExt::|writer::out::|format_|coerce_error|trim_path", max_paths=60000, prune=True)
+    rows = dp.run()
+    if not rows:
+        raise Unverifiable("Basic::scenario: empty table")
+    T = Typer(F, disp, dp)
+    ev_arg = [i for i in range(1, disp.arg_count + 1) if "event::RetryableScenario" in disp.locals[i]][0]
+
+    def delta(t):
+        if not isinstance(t, tuple) or not t:
+            return None
+        if t[0] == "bin" and t[1] in ("Add", "AddWithOverflow", "Sub", "SubWithOverflow") and t[3][0] == "const" and isinstance(t[3][1], int):
+            d = delta(t[2])
+            return None if d is None else d + (t[3][1] if t[1].startswith("Add") else -t[3][1])
+        if t[0] == "tuple":
+            return delta(t[1][0])
+        if t[0] == "field" and isinstance(t[1], tuple) and t[1] and t[1][0] == "tuple":
+            return delta(t[1][1][t[2]])
+        if len(t) == 4 and t[0] == "call" and re.search(r"(saturating|wrapping|checked)_sub$", t[1]) and len(t[2]) == 2 and t[2][1][0] == "const":
+            d = delta(t[2][0])
+            return None if d is None else d - t[2][1][1]
+        if len(t) == 4 and t[0] == "call" and re.search(r"(saturating|wrapping|checked)_add$", t[1]) and len(t[2]) == 2 and t[2][1][0] == "const":
+            d = delta(t[2][0])
+            return None if d is None else d + t[2][1][1]
+        if t[0] == "field":
+            return 0
+        if t[0] in ("deref", "ref", "conv", "refto"):
+            return delta(t[1])
+        return None
+    tab = {}
+    for p in rows:
+        d = {}
+        for a, o in p.conds:
+            if a[0] == "discr" and isinstance(o, str):
+                adt = dp.adt_of.get(a, "")
+                if adt.startswith("event::") and D.mentions(a[1], lambda x: x == ("arg", ev_arg)):
+                    d.setdefault(adt.rsplit("::", 1)[-1], o)
+        ws = [e for e in p.effects if e[0] == "write" and (T.path(("ref", e[1])) or "") == "self.indent"]
+        dl = delta(ws[-1][2]) if ws else 0
+        kind = d.get("Scenario")
+        sub = d.get("Step") if kind in ("Background", "Step") else d.get("Hook") if kind == "Hook" else None
+        for k1 in (kind or "?").split("|"):
+            for s1 in (sub.split("|") if sub else [None]):
+                tab.setdefault((k1, s1), set()).add(dl)
+    n = 0
+    for kind, results in (("Step", ("Passed", "Skipped", "Failed")), ("Background", ("Passed", "Skipped", "Failed")), ("Hook", ("Passed", "Failed"))):
+        op = tab.get((kind, "Started"), set())
+        if len(op) != 1 or None in op:
+            R.unverifiable(f"indent-balance/{kind}", f"indent change of {kind}::Started is {sorted(map(str, op))}")
+            continue
+        k = next(iter(op))
+        for res in results:
+            n += 1
+            got = tab.get((kind, res), set())
+            R.check(bool(got) and None not in got and (got - {0}) <= {-k} and (k == 0 or -k in got), f"indent-balance/{kind}::{res}", disp, f"Started {k:+d}, {res} {-k:+d}",
+                    f"terminal writer: {kind}::Started changes the indentation by {k:+d} but {kind}::{res} by {sorted(map(str, got))}: the lines that follow are placed under the wrong rule / scenario")
+    so, sf = tab.get(("Started", None), set()), tab.get(("Finished", None), set())
+    n += 1
+    R.check(len(so) == 1 and None not in so and None not in sf and (sf - {0}) <= {-next(iter(so))}, "indent-balance/Scenario", disp, "Scenario::Started / Finished balance",
+            f"terminal writer: Scenario::Started changes the indentation by {sorted(map(str, so))}, Scenario::Finished by {sorted(map(str, sf))}")
+    R.floor(6)
+
+
+RULES = [("R21", r21, None), ("R20", r20, None), ("R19", r19, ["all", "libtest"]), ("R18", r18, ["all", "libtest"]), ("R17", r17, None), ("R16", r16, ["all", "libtest"]), ("R15", r15, ["all", "junit"]), ("R14", r14, None), ("R13", r13, None), ("R12", r12, None), ("R11", r11, None), ("R10", r10, ["all", "json"]), ("R9", r9, None), ("R8", r8, ["all", "junit"]), ("R7", r7, ["all", "json"]), ("R6", r6, ["all", "json"]), ("R5", r5, ["all", "junit"]), ("R1", r1, None), ("R2", r2, None), ("R3", r3, None), ("R4", r4, None)]
